@@ -1,8 +1,12 @@
 import ArimModel.Weights
+import ArimProofs.Lemmas.Weights
+import ArimProofs.C06
+import Mathlib.Analysis.SpecialFunctions.Trigonometric.Inverse
 /-! # C07 — receive-side (reverse) terms equal transmit-side terms of the reversed path -/
 namespace Arim.C07
 open Arim.Weights Arim.Iface
 
+section shape
 variable {C : Type} [Add C] [Sub C] [Mul C] [Div C] [Neg C]
 
 /-- the reverse product is the direct product over the interfaces seen from the other side:
@@ -11,6 +15,7 @@ the incidence angle replaced by its Snell image -/
 theorem revTransRefl_def (t : CTrig C) (m : Media C) (disp : Bool) (specs : List (IfaceSpec C)) :
     revTransRefl t m disp specs = transRefl t m disp (specs.map (revSpec t)) := rfl
 
+omit [Add C] [Sub C] [Neg C] in
 /-- reversing an interface twice gives back its kind, modes and velocities -/
 theorem revSpec_revSpec_shape (t : CTrig C) (s : IfaceSpec C) :
     (revSpec t (revSpec t s)).kind = s.kind ∧ (revSpec t (revSpec t s)).modeIn = s.modeIn ∧
@@ -18,5 +23,295 @@ theorem revSpec_revSpec_shape (t : CTrig C) (s : IfaceSpec C) :
     (revSpec t (revSpec t s)).vOut = s.vOut := by
   obtain ⟨tr, k, mi, mo, th, vi, vo⟩ := s
   cases tr <;> cases k <;> simp [revSpec, Kind.rev]
+
+end shape
+
+/-! ## attenuation -/
+section atten
+variable {K : Type} [CommRing K]
+
+/-- `material_attenuation_for_path` is `exp(0 − Σ α_k r_k)` (`exp` arbitrary) -/
+theorem attenuation_eq_sum (t : RTrig K) (alphas legs : List K) :
+    attenuation t alphas legs =
+      t.exp (t.zero - ((List.zip alphas legs).map (fun p => p.1 * p.2)).sum) := by
+  unfold attenuation; rw [foldl_sub_eq]
+
+/-- **Reverse attenuation**: the attenuation of the reversed path (legs and coefficients listed
+from the far end) is the attenuation of the direct path -/
+theorem attenuation_reverse (t : RTrig K) (alphas legs : List K) (h : alphas.length = legs.length) :
+    attenuation t alphas.reverse legs.reverse = attenuation t alphas legs := by
+  rw [attenuation_eq_sum, attenuation_eq_sum]
+  have : List.zip alphas.reverse legs.reverse = (List.zip alphas legs).reverse := by
+    unfold List.zip; rw [List.reverse_zipWith h]
+  rw [this, List.map_reverse, List.sum_reverse]
+
+end atten
+
+/-! ## transmission/reflection product -/
+section prod
+variable {C : Type} [CommMonoid C] [Add C] [Sub C] [Div C] [Neg C]
+
+/-- the only error `transRefl` can report is `physics` (a transverse wave in the fluid) -/
+theorem coef_error_physics (t : CTrig C) (m : Media C) (disp : Bool) (s : IfaceSpec C) (e : IErr)
+    (h : coef t m disp s = .error e) : e = .physics := coef_error h
+
+/-- **Fold lemma**: when no coefficient is an error, `transRefl` is `some` of the product of the
+coefficients (`none` for a path without interior interface). The coefficient functions are
+arbitrary (any `CTrig`), so complex post-critical values are covered. -/
+theorem transRefl_eq_prod (t : CTrig C) (m : Media C) (disp : Bool) (specs : List (IfaceSpec C))
+    (cs : List C) (h : List.Forall₂ (fun s c => coef t m disp s = .ok c) specs cs) :
+    transRefl t m disp specs = .ok (if specs = [] then none else some cs.prod) := by
+  have key : (∀ s ∈ specs, coef t m disp s = .ok (coefVal t m disp s)) ∧
+      specs.map (coefVal t m disp) = cs := by
+    induction h with
+    | nil => simp
+    | @cons s₀ c₀ _ _ hc _ ih =>
+      have hv : coefVal t m disp s₀ = c₀ := by unfold coefVal; rw [hc]
+      refine ⟨?_, ?_⟩
+      · intro s hs
+        rcases List.mem_cons.1 hs with rfl | hs
+        · rw [hv, hc]
+        · exact ih.1 s hs
+      · rw [List.map_cons, ih.2, hv]
+  obtain ⟨hall, hcs⟩ := key
+  rw [transRefl_ok t m disp specs hall, hcs]
+
+/-- the product does not depend on the order in which the interfaces are listed
+(commutative multiplication); unconditional: if a coefficient is an error both sides are
+`error physics` -/
+theorem transRefl_reverse_invariant (t : CTrig C) (m : Media C) (disp : Bool)
+    (specs : List (IfaceSpec C)) :
+    transRefl t m disp specs.reverse = transRefl t m disp specs :=
+  transRefl_reverse t m disp specs
+
+/-- **Reverse T/R product = direct T/R product on the physically reversed path**: the reversed
+path meets the reversed interfaces in the opposite order -/
+theorem revTransRefl_eq_reversed (t : CTrig C) (m : Media C) (disp : Bool)
+    (specs : List (IfaceSpec C)) :
+    transRefl t m disp ((specs.map (revSpec t)).reverse) = revTransRefl t m disp specs := by
+  rw [revTransRefl, transRefl_reverse]
+
+/-- same statement with the reversal done first -/
+theorem revTransRefl_eq_reversed' (t : CTrig C) (m : Media C) (disp : Bool)
+    (specs : List (IfaceSpec C)) :
+    transRefl t m disp (specs.reverse.map (revSpec t)) = revTransRefl t m disp specs := by
+  rw [List.map_reverse]; exact revTransRefl_eq_reversed t m disp specs
+
+end prod
+
+/-! ## reverse ray-tube factors -/
+section gam
+variable {K : Type} [Field K]
+
+/-- **γ' = 1/γ** as an identity in `ν, s, c` (`ν' = 1/ν`): the reverse factor
+`ν' c² / (1 − ν'² s²)` is the inverse of the direct factor `(ν² − s²)/(ν c²)`. No Snell, and no
+side condition: where a denominator vanishes both sides are `0` (`x/0 = 0`). -/
+theorem revGamma_eq_inv (ν s c : K) :
+    ((1 / ν) * c * c) / (1 - (1 / ν) * (1 / ν) * s * s) = 1 / ((ν * ν - s * s) / (ν * c * c)) := by
+  rw [one_div, one_div]; exact revGamma_inv_aux ν s c
+
+/-- the factor the reverse routine computes at an interface (outgoing velocity first) is the
+inverse of the direct factor at that interface -/
+theorem revGammaF_eq_inv (t : RTrig K) (hone : t.one = 1) (vIn vOut θ : K) :
+    revGammaF t vOut vIn θ = (gammaF t vIn vOut θ)⁻¹ := by
+  simp only [revGammaF, gammaF, hone]
+  rw [← inv_div vIn vOut]
+  exact revGamma_inv_aux _ _ _
+
+/-- **Reverse gammas**: the `k`-th reverse factor, computed from the direct incidence angle at
+interface `n−k`, is the inverse of the direct factor of that interface -/
+theorem revGammas_inv (t : RTrig K) (hone : t.one = 1) (vels thetas : List K)
+    (hlen : thetas.length + 1 = vels.length) :
+    revGammas t vels.reverse thetas.reverse = ((gammas t vels thetas).map (·⁻¹)).reverse := by
+  rw [revGammas_eq_ifaceMap, ifaceMap_reverse _ _ _ hlen, gammas_eq_ifaceMap, ifaceMap_map]
+  congr 2
+  funext a b th
+  exact revGammaF_eq_inv t hone a b th
+
+/-- Snell's law at every interior interface: `thetas` are the incidence angles and `thetaOuts` the
+refraction/reflection angles of the direct ray, `vIn sin θOut = vOut sin θIn` -/
+def SnellLinked (t : RTrig K) (vels thetas thetaOuts : List K) : Prop :=
+  IfaceAll (fun vIn vOut θ φ => vIn * t.sin φ = vOut * t.sin θ) vels thetas thetaOuts
+
+/-- indexed form of `SnellLinked` -/
+theorem snellLinked_of_index (t : RTrig K) (vels thetas thetaOuts : List K)
+    (h : ∀ k (h1 : k + 1 < vels.length) (h2 : k < thetas.length) (h3 : k < thetaOuts.length),
+      vels[k] * t.sin thetaOuts[k] = vels[k + 1] * t.sin thetas[k]) :
+    SnellLinked t vels thetas thetaOuts :=
+  IfaceAll_of_index vels thetas thetaOuts h
+
+/-- under Snell, the reverse routine's factors are the DIRECT factors of the reversed ray, whose
+incidence angles are the `θOut` of the direct ray in reverse order -/
+theorem revGammas_eq_gammas_reversed (t : RTrig K) (hone : t.one = 1)
+    (hpyth : ∀ x, t.cos x * t.cos x = 1 - t.sin x * t.sin x)
+    (vels thetas thetaOuts : List K)
+    (hlen : thetas.length + 1 = vels.length) (hlen' : thetaOuts.length = thetas.length)
+    (hv : ∀ v ∈ vels, v ≠ 0) (hsnell : SnellLinked t vels thetas thetaOuts) :
+    revGammas t vels.reverse thetas.reverse = gammas t vels.reverse thetaOuts.reverse := by
+  rw [revGammas_eq_ifaceMap, ifaceMap_reverse _ _ _ hlen, gammas_eq_ifaceMap,
+    ifaceMap_reverse _ _ _ (by omega)]
+  congr 1
+  apply ifaceMap_congr _ _ _ _ _ hlen'.symm
+  refine IfaceAll_mono ?_ _ _ _ (IfaceAll_and_mem (Q := fun v => v ≠ 0) _ _ _ hv hsnell)
+  intro vIn vOut θ φ ⟨hIn, _, hs⟩
+  simp only [revGammaF, gammaF, hone]
+  exact (gamma_reversed_aux vIn vOut (t.sin θ) (t.cos θ) (t.sin φ) (t.cos φ) hIn hs
+    (hpyth θ) (hpyth φ)).symm
+
+/-- **Reverse beamspread = direct beamspread of the reversed ray** (general field, abstract
+`sin`/`cos` with `sin² + cos² = 1`) -/
+theorem revBeamspread_eq_reversed (t : RTrig K) (hone : t.one = 1)
+    (hpyth : ∀ x, t.cos x * t.cos x = 1 - t.sin x * t.sin x)
+    (legs vels thetas thetaOuts : List K)
+    (hlen : thetas.length + 1 = vels.length) (hlen' : thetaOuts.length = thetas.length)
+    (hv : ∀ v ∈ vels, v ≠ 0) (hsnell : SnellLinked t vels thetas thetaOuts) :
+    revBeamspread t legs vels thetas = beamspread t legs.reverse vels.reverse thetaOuts.reverse := by
+  unfold revBeamspread beamspread
+  rw [revGammas_eq_gammas_reversed t hone hpyth vels thetas thetaOuts hlen hlen' hv hsnell]
+
+end gam
+
+section real
+open Arim.C06
+
+/-- **Reverse beamspread = direct beamspread of the reversed ray**, real angles: only Snell's law
+at every interface and non-zero velocities are assumed -/
+theorem revBeamspread_eq_reversed_real (legs vels thetas thetaOuts : List ℝ)
+    (hlen : thetas.length + 1 = vels.length) (hlen' : thetaOuts.length = thetas.length)
+    (hv : ∀ v ∈ vels, v ≠ 0)
+    (hsnell : ∀ k (h1 : k + 1 < vels.length) (h2 : k < thetas.length) (h3 : k < thetaOuts.length),
+      vels[k] * Real.sin thetaOuts[k] = vels[k + 1] * Real.sin thetas[k]) :
+    revBeamspread rT legs vels thetas = beamspread rT legs.reverse vels.reverse thetaOuts.reverse :=
+  revBeamspread_eq_reversed rT rfl rT_pyth legs vels thetas thetaOuts hlen hlen' hv
+    (snellLinked_of_index rT vels thetas thetaOuts hsnell)
+
+end real
+
+/-! ## double reversal of an interface -/
+section invol
+variable {C : Type} [Field C]
+
+/-- **The angle comes back**: exact hypotheses on `asin`/`sin` — `sin (asin x) = x` at the Snell
+argument `x = vOut/vIn · sin θ` and `asin (sin θ) = θ` at the incidence angle -/
+theorem revSpec_involutive_angle (t : CTrig C) (s : IfaceSpec C) (hIn : s.vIn ≠ 0) (hOut : s.vOut ≠ 0)
+    (hsin : t.sin (t.asin (s.vOut / s.vIn * t.sin s.theta)) = s.vOut / s.vIn * t.sin s.theta)
+    (hasin : t.asin (t.sin s.theta) = s.theta) :
+    (revSpec t (revSpec t s)).theta = s.theta := by
+  simp only [revSpec, snell, hsin]
+  rw [← mul_assoc, div_mul_div_comm, mul_comm s.vIn, div_self (mul_ne_zero hOut hIn), one_mul, hasin]
+
+/-- under the same hypotheses `revSpec` is an involution on that interface -/
+theorem revSpec_involutive (t : CTrig C) (s : IfaceSpec C) (hIn : s.vIn ≠ 0) (hOut : s.vOut ≠ 0)
+    (hsin : t.sin (t.asin (s.vOut / s.vIn * t.sin s.theta)) = s.vOut / s.vIn * t.sin s.theta)
+    (hasin : t.asin (t.sin s.theta) = s.theta) :
+    revSpec t (revSpec t s) = s := by
+  have hθ := revSpec_involutive_angle t s hIn hOut hsin hasin
+  obtain ⟨tr, k, mi, mo, th, vi, vo⟩ := s
+  cases tr <;> cases k <;> simp_all [revSpec, Kind.rev]
+
+end invol
+
+section invol_real
+
+/-- real instance of the interface routines -/
+noncomputable def tR : CTrig ℝ :=
+  { sin := Real.sin, cos := Real.cos, asin := Real.arcsin, ofNat := fun n => (n : ℝ) }
+
+/-- real angles: the angle comes back when the interface is pre-critical
+(`|vOut/vIn · sin θ| ≤ 1`) and the incidence angle is in `[−π/2, π/2]` -/
+theorem revSpec_involutive_angle_real (s : IfaceSpec ℝ) (hIn : s.vIn ≠ 0) (hOut : s.vOut ≠ 0)
+    (hlo : -1 ≤ s.vOut / s.vIn * Real.sin s.theta) (hhi : s.vOut / s.vIn * Real.sin s.theta ≤ 1)
+    (hθlo : -(Real.pi / 2) ≤ s.theta) (hθhi : s.theta ≤ Real.pi / 2) :
+    (revSpec tR (revSpec tR s)).theta = s.theta :=
+  revSpec_involutive_angle tR s hIn hOut (Real.sin_arcsin hlo hhi) (Real.arcsin_sin hθlo hθhi)
+
+end invol_real
+
+/-! ## non-vacuity -/
+section examples
+open Arim.C06
+
+/-- `exp = id`: `0 − 1·3 − 2·4 = −11` both ways -/
+example : attenuation tQ [1, 2] [3, 4] = -11 ∧ attenuation tQ [2, 1] [4, 3] = -11 := by
+  norm_num [attenuation, tQ]
+
+example : attenuation tQ ([1, 2] : List ℚ).reverse ([3, 4] : List ℚ).reverse = attenuation tQ [1, 2] [3, 4] :=
+  attenuation_reverse tQ _ _ rfl
+
+/-- the length hypothesis of `attenuation_reverse` is needed: `zip` truncates at the other end -/
+example : attenuation tQ ([1] : List ℚ).reverse ([3, 4] : List ℚ).reverse ≠ attenuation tQ [1] [3, 4] := by
+  norm_num [attenuation, tQ]
+
+/-- `γ' = 1/γ` at `ν = 2, s = 1, c = 1`: `γ = 3/2`, `γ' = 2/3` -/
+example : ((1 / 2 : ℚ) * 1 * 1) / (1 - (1 / 2) * (1 / 2) * 1 * 1) = 2 / 3 ∧
+    1 / (((2 : ℚ) * 2 - 1 * 1) / (2 * 1 * 1)) = 2 / 3 := by norm_num
+
+theorem tQ_pyth (x : ℚ) : tQ.cos x * tQ.cos x = 1 - tQ.sin x * tQ.sin x := by
+  simp only [tQ]; split_ifs <;> norm_num
+
+/-- the 3-4-5 interface of `C06`: incidence `0` (`sin = 3/5`) and refraction `1` (`sin = 4/5`) are
+Snell-linked for `vIn = 3`, `vOut = 4` -/
+example : SnellLinked tQ [3, 4] [0] [1] := by
+  simp only [SnellLinked, IfaceAll, and_true]; norm_num [tQ]
+
+example : revBeamspread tQ [1, 2] [3, 4] [0] = beamspread tQ [2, 1] [4, 3] [1] :=
+  revBeamspread_eq_reversed tQ rfl tQ_pyth [1, 2] [3, 4] [0] [1] rfl rfl (by simp)
+    (by simp only [SnellLinked, IfaceAll, and_true]; norm_num [tQ])
+
+/-- both sides are `1/(2 + 1/(64/27)) = 64/155` (with `sqrt = id`) -/
+example : revBeamspread tQ [1, 2] [3, 4] [0] = 64 / 155 ∧ beamspread tQ [2, 1] [4, 3] [1] = 64 / 155 := by
+  norm_num [revBeamspread, beamspread, virtualDistance, revGammas, gammas, tQ, List.range, List.range.loop]
+
+/-- Snell is needed: with the wrong angle for the reversed ray the two differ -/
+example : revBeamspread tQ [1, 2] [3, 4] [0] ≠ beamspread tQ [2, 1] [4, 3] [0] := by
+  norm_num [revBeamspread, beamspread, virtualDistance, revGammas, gammas, tQ, List.range, List.range.loop]
+
+/-- real angles, normal incidence: Snell holds for any velocities -/
+example : revBeamspread rT [1, 2] [1, 2] [0] = beamspread rT [2, 1] [2, 1] [0] := by
+  refine revBeamspread_eq_reversed_real [1, 2] [1, 2] [0] [0] rfl rfl (by simp) ?_
+  intro k h1 h2 h3
+  have hk : k = 0 := by simpa using h2
+  subst hk; simp
+
+/-- a rational model of the coefficient routines (all angles evaluate as normal incidence) -/
+def tq : CTrig ℚ := { sin := fun _ => 0, cos := fun _ => 1, asin := fun _ => 0, ofNat := fun n => n }
+def mq : Media ℚ := { rhoF := 1, rhoS := 2, cF := 1, cL := 2, cT := 1 }
+def s1 : IfaceSpec ℚ := ⟨true, .fluidSolid, .L, .L, 0, 1, 2⟩
+def s2 : IfaceSpec ℚ := ⟨false, .solidFluid, .L, .L, 0, 2, 2⟩
+def s3 : IfaceSpec ℚ := ⟨true, .solidFluid, .L, .L, 0, 2, 1⟩
+def sBad : IfaceSpec ℚ := ⟨true, .fluidSolid, .T, .L, 0, 1, 2⟩
+
+theorem coef_s1 : coef tq mq false s1 = .ok (8 / 5) := by
+  norm_num [coef, s1, transmissionAt, fluidSolid, nfs, snell, tq, mq, velS]
+theorem coef_s2 : coef tq mq false s2 = .ok (-3 / 5) := by
+  norm_num [coef, s2, reflectionAt, solidLFluid, nfs, snell, tq, mq, velS]
+theorem coef_s3 : coef tq mq false s3 = .ok (2 / 5) := by
+  norm_num [coef, s3, transmissionAt, solidLFluid, nfs, snell, tq, mq, velS]
+
+/-- the product of three coefficients -/
+example : transRefl tq mq false [s1, s2, s3] = .ok (some (-48 / 125)) := by
+  rw [transRefl_eq_prod tq mq false [s1, s2, s3] [8 / 5, -3 / 5, 2 / 5]
+    (.cons coef_s1 (.cons coef_s2 (.cons coef_s3 .nil))), if_neg (by simp)]
+  norm_num
+
+example : transRefl tq mq false (([s1, s2, s3].map (revSpec tq)).reverse) =
+    revTransRefl tq mq false [s1, s2, s3] :=
+  revTransRefl_eq_reversed tq mq false _
+
+/-- a transverse wave incident from the fluid: both orders report `physics` -/
+example : transRefl tq mq false [s1, sBad, s3] = .error .physics ∧
+    transRefl tq mq false [s1, sBad, s3].reverse = .error .physics := ⟨rfl, rfl⟩
+
+/-- the statements apply to any field, in particular to `ℂ` (post-critical coefficients) -/
+example {C : Type} [Field C] (t : CTrig C) (m : Media C) (disp : Bool) (specs : List (IfaceSpec C)) :
+    transRefl t m disp ((specs.map (revSpec t)).reverse) = revTransRefl t m disp specs :=
+  revTransRefl_eq_reversed t m disp specs
+
+/-- `revSpec` is an involution on a normal-incidence real interface -/
+example : (revSpec tR (revSpec tR ⟨true, .fluidSolid, .L, .L, 0, 1, 2⟩)).theta = 0 :=
+  revSpec_involutive_angle_real _ (by norm_num) (by norm_num) (by norm_num) (by norm_num)
+    (by have := Real.pi_pos; linarith) (by have := Real.pi_pos; linarith)
+
+end examples
 
 end Arim.C07
